@@ -12,7 +12,8 @@ RULE = ("well-formed responses framed by Content-Length or chunked coding (hand-
         "and their single-change malformed variants (version token, status syntax / over limit, reason over limit, whitespace "
         "runs, header-name byte, Content-Length syntax, chunk size syntax, chunk terminator, bare LF under strict) x partitions "
         "(whole, byte-wise, line-wise, every single cut, every pair of cuts for short messages, structural, random) x response "
-        "configurations x containers; expectation by construction; non-trivial = more than one read")
+        "configurations x containers; sequences of two or three responses on one connection with reads that run over the message boundary "
+        "(a read that completes one body and carries the start of the next); expectation by construction; non-trivial = more than one read")
 TRUSTED_BASE = ["tools/cxx2lean.py (translator of the parse_char state machines of SL, FL, CH from the current C++ into Lean; the model is proved equal to the translation in ViaProofs/Trans)", "Lean 4.33 kernel", "axioms: propext, Classical.choice, Quot.sound at most",
                 "rx_driver (real response_receiver driven like http_client::receive_handler) + via_model driver"]
 ASSUMPTIONS = ["a response without Content-Length and without chunked coding (body delimited by connection close) is outside the "
